@@ -53,7 +53,7 @@ MIN_HITS = {
         'mon:mime': 30000, 'mon:domain': 40000, 'mon:cluster': 20000, 'mon:geom': 20000, 'mon:algo': 500,
         'fully-padded-batch': 1500, 'arbitrary-mask': 1000, 'garbage-padding': 2000, 'empty-client': 300,
         'empty-domain': 4000, 'via-model': 3000, 'reg:with-centre': 3000, 'reg:none': 1500, 'geometry:hand-built': 1000,
-        'algo:mime': 40, 'algo:mime_lite': 40, 'algo:agnostic_fed_avg': 40, 'algo:hyp_cluster': 40,
+        'algo:mime': 25, 'algo:mime_lite': 25, 'algo:agnostic_fed_avg': 25, 'algo:hyp_cluster': 25,
     },
 }
 TECHNIQUE = ('runtime monitoring: float64 closed-form gradients / losses / per-domain sums on every execution + differential '
@@ -915,7 +915,7 @@ def run(ctx):
     return cache[idx]
 
   import time
-  n_batch, n_data, n_algo = (1600, 320, 16) if ctx.quick else (16000, 3200, 320)
+  n_batch, n_data, n_algo = (1600, 320, 16) if ctx.quick else (16000, 2400, 200)
   t0 = time.time()
   for cid, rng in ctx.cases('batch', n_batch):
     batch_case(ctx, mods, cfgs, MK, int(cid.split('/')[1]), rng)
